@@ -216,9 +216,10 @@ def gen(cls, idx, rng, tier):
         if (w, h) in ((8, 8), (16, 16)):
             root = (0, 0)
         down = [i for i in range(12) if rng.random() < .25]
+        unreachable = [i for i in range(12) if rng.random() < .15]
         targets = [(rng.randrange(w), rng.randrange(h)) for _ in range(12)]
         return dict(kind="connections", w=w, h=h, root=root, down=down,
-                    targets=targets)
+                    unreachable=unreachable, targets=targets)
     name = sorted(BMP_METHODS)[(idx // len(PLANS)) % len(BMP_METHODS)]
     conns = rng.choice([[(0, 0)], [(0, 0), (0, 0, 3)], [(0, 0), (1, 0)],
                         [(0, 0, 1), (0, 0, 2), (0, 0)], [(2, 1), (2, 1, 7)]])
@@ -635,11 +636,16 @@ def run_connections(case, ctx):
         c.local_eth = (e[0] % w, e[1] % h)
     m.finalise()
     r = M.Rig(m)
+    cut = set()
+    for k, xy in enumerate(eths):
+        if k in case.get("unreachable", []) and xy != root:
+            cut.add(xy)     # Ethernet up on the chip, but no route from here
     for xy, ip in ips.items():
-        m.attach(r.net, ip, xy)
+        if xy not in cut:
+            m.attach(r.net, ip, xy)
     mc = r.mc
     n = mc.discover_connections()
-    up = {xy for xy in eths if m.chips[xy].eth_up}
+    up = {xy for xy in eths if m.chips[xy].eth_up and xy not in cut}
     check(set(k for k in mc.connections if k is not None) == up - (
         set() if True else set()), "connections-discovered",
         "controller has %r, Ethernet-connected chips %r" %
